@@ -5,7 +5,7 @@ non-walking operations (`readPath`, `appendOp`).
 import NoulithModel.Lemmas.HeapWalk
 
 namespace Noulith.RcHeap
-open Noulith.Store (Tree modPath pyIdx setφ takeφ popφ removeφ getPath)
+open Noulith.Store (Tree modPath pyIdx setφ takeφ popφ removeφ getPath LeafT dictSlot)
 
 /-! ### heaps that differ only in the cost ledger -/
 
@@ -13,10 +13,12 @@ theorem rcOf_allocs_eq {h h' : Heap} (e : h'.allocs = h.allocs) (i : Nat) : rcOf
   simp [rcOf, e]
 theorem payloadOf_allocs_eq {h h' : Heap} (e : h'.allocs = h.allocs) (i : Nat) : payloadOf h' i = payloadOf h i := by
   simp [payloadOf, e]
+theorem keysOf_allocs_eq {h h' : Heap} (e : h'.allocs = h.allocs) (i : Nat) : keysOf h' i = keysOf h i := by
+  simp [keysOf, e]
 theorem pocc_allocs_eq {h h' : Heap} (e : h'.allocs = h.allocs) (i : Nat) : pocc i h' = pocc i h := by
   simp [pocc, e]
 theorem PayloadExt.of_allocs_eq {h h' : Heap} (e : h'.allocs = h.allocs) : PayloadExt h h' :=
-  ⟨by simp [e], fun i _ => payloadOf_allocs_eq e i⟩
+  ⟨by simp [e], fun i _ => payloadOf_allocs_eq e i, fun i _ => keysOf_allocs_eq e i⟩
 theorem Inv.of_allocs_eq {h h' : Heap} (e : h'.allocs = h.allocs) {T : List Val} (i : Inv h T) : Inv h' T :=
   fun k => by rw [pocc_allocs_eq e, rcOf_allocs_eq e]; exact i k
 
@@ -29,21 +31,18 @@ theorem Tr.ledger {h h1 h' : Heap} {o F : List Val} (a : Tr h h1 o F) (e : h'.al
 theorem replace_payload {m : Heap} {id1 : Nat} {ins outs F : List Val} (p' : List Val)
     (i : Inv m (.ref id1 :: ins ++ F)) (rc1 : rcOf m id1 = 1)
     (hocc : ∀ k, occ k p' + occ k outs = occ k (payloadOf m id1) + occ k ins) :
-    Tr m (setPayload m id1 p') (.ref id1 :: outs) F := by
-  obtain ⟨hz, hf, hl⟩ := unique_facts i rc1
-  have hf' : occ id1 ins + occ id1 F = 0 := by rw [← occ_append]; exact hf
-  have hfz : occ id1 F = 0 := by omega
-  refine ⟨fun k => ?_, slot_write_stable _ hz hfz, fun k _ _ => rcOf_setPayload _ _ _ _⟩
-  have hk := i k
-  have e1 := pocc_setPayload m id1 k p' hl
-  have e2 := hocc k
-  rw [rcOf_setPayload]
-  simp only [occ_cons, occ_append, List.cons_append] at hk ⊢
-  omega
+    Tr m (setPayload m id1 p') (.ref id1 :: outs) F :=
+  replace_alloc ⟨p', rcOf m id1, keysOf m id1⟩ rfl i rc1 hocc
+
+theorem replace_entries {m : Heap} {id1 : Nat} {ins outs F : List Val} (p' : List Val) (ks : List Int)
+    (i : Inv m (.ref id1 :: ins ++ F)) (rc1 : rcOf m id1 = 1)
+    (hocc : ∀ k, occ k p' + occ k outs = occ k (payloadOf m id1) + occ k ins) :
+    Tr m (setEntries m id1 p' ks) (.ref id1 :: outs) F :=
+  replace_alloc ⟨p', rcOf m id1, some ks⟩ rfl i rc1 hocc
 
 /-! ### leaf contracts -/
 
-theorem setLeaf_spec (new : Val) (tn : Tree) : LeafSpec (setLeaf new) [new] [tn] (setφ tn) := by
+theorem setLeaf_spec (new : Val) (tn : Tree) : LeafSpec (setLeaf new).act [new] [tn] (setφ tn).act := by
   intro h c F t i _ rcap
   have t0 := drop_tr (h := h) (v := c) (F := new :: F) (i.congr (fun k => by simp [occ_cons, occ_append]))
   refine ⟨?_, rfl, ?_, Rep_null⟩
@@ -51,7 +50,12 @@ theorem setLeaf_spec (new : Val) (tn : Tree) : LeafSpec (setLeaf new) [new] [tn]
   · have : Rep h new tn := by simpa using rcap
     exact t0.stable.rep (.root (by simp [setLeaf])) this
 
-theorem takeLeaf_spec : LeafSpec takeLeaf [] [] takeφ := by
+theorem setLeaf_ins (new : Val) (tn : Tree) : InsSpec (setLeaf new).ins (setφ tn).ins [new] [tn] := ⟨rfl, rfl⟩
+theorem takeLeaf_ins : InsSpec takeLeaf.ins takeφ.ins [] [] := trivial
+theorem popLeaf_ins : InsSpec popLeaf.ins popφ.ins [] [] := trivial
+theorem removeLeaf_ins (i : Int) : InsSpec (removeLeaf i).ins (removeφ i).ins [] [] := trivial
+
+theorem takeLeaf_spec : LeafSpec takeLeaf.act [] [] takeφ.act := by
   intro h c F t i r _
   exact ⟨Tr.refl (i.congr (fun k => by simp [takeLeaf, occ_cons, occ_append])), rfl, Rep_null, r⟩
 
@@ -61,97 +65,154 @@ theorem mem_of_mem_dropLast {α : Type} {l : List α} {a : α} (h : a ∈ l.drop
 theorem mem_of_getLast? {α : Type} {l : List α} {a : α} (h : l.getLast? = some a) : a ∈ l :=
   List.mem_of_getLast? h
 
-theorem popLeaf_spec : LeafSpec popLeaf [] [] popφ := by
+theorem popLeaf_spec : LeafSpec popLeaf.act [] [] popφ.act := by
   intro h c F t i r _
   cases c with
   | null =>
     have := Rep_null_inv r; subst this
-    exact ⟨Tr.refl (i.congr (fun k => by simp [popLeaf, occ_cons, occ_append])), rfl, r, rfl⟩
+    exact ⟨Tr.refl (i.congr (fun k => by simp [popLeaf, popAct, occ_cons, occ_append])), rfl, r, rfl⟩
   | int n =>
     have := Rep_int_inv r; subst this
-    exact ⟨Tr.refl (i.congr (fun k => by simp [popLeaf, occ_cons, occ_append])), rfl, r, rfl⟩
+    exact ⟨Tr.refl (i.congr (fun k => by simp [popLeaf, popAct, occ_cons, occ_append])), rfl, r, rfl⟩
   | ref id =>
-    obtain ⟨ts, rfl, hl, a⟩ := Rep_ref_inv r
-    have MS := makeMut_spec (h := h) (id := id) (F := F) (i.congr (fun k => by simp [occ_cons, occ_append]))
-    have a0 : All2 (Rep (makeMut h id).1) (payloadOf (makeMut h id).1 (makeMut h id).2) ts := by
-      rw [MS.pay]; exact All2.mono (fun _ _ _ r => r.ext MS.ext) a
-    have i0 : Inv (makeMut h id).1 (.ref (makeMut h id).2 :: [] ++ F) := by simpa using MS.tr.inv
-    obtain ⟨hz, _, hl0⟩ := unique_facts i0 MS.rc1
-    cases hg : (payloadOf (makeMut h id).1 (makeMut h id).2).getLast? with
-    | none =>
-      have e : popLeaf h (.ref id) = ⟨(makeMut h id).1, .ref (makeMut h id).2, .null, false⟩ := by
-        simp only [popLeaf, hg]
+    obtain ⟨hc, hl, hk, hw, a⟩ := Rep_ref_inv r
+    cases t with
+    | null => simp at hc
+    | int n => simp at hc
+    | dict ks vs =>
+      simp only [Tree.keysT_dict] at hk
+      have e : popLeaf.act h (.ref id) = ⟨h, .ref id, .null, false⟩ := by simp only [popLeaf, popAct, hk]
       rw [e]
-      have hs : ts.getLast? = none := All2.getLast?_none a0 hg
-      simp only [popφ, hs]
-      exact ⟨MS.tr.outs_congr (fun k => by simp [occ_cons]), trivial, Rep_ref_list MS.lt a0, trivial⟩
-    | some x =>
-      have e : popLeaf h (.ref id) = ⟨setPayload (makeMut h id).1 (makeMut h id).2
-          (payloadOf (makeMut h id).1 (makeMut h id).2).dropLast, .ref (makeMut h id).2, x, true⟩ := by
-        simp only [popLeaf, hg]
-      rw [e]
-      obtain ⟨y, hy, rxy⟩ := All2.getLast? a0 hg
-      simp only [popφ, hy]
-      have R := replace_payload (ins := []) (outs := [x]) (F := F)
-        (payloadOf (makeMut h id).1 (makeMut h id).2).dropLast i0 MS.rc1
-        (fun k => by have := occ_dropLast_getLast k _ x hg; simp at this ⊢; omega)
-      refine ⟨?_, trivial, ?_, ?_⟩
-      · refine ⟨R.inv.congr (fun k => by simp [occ_cons, occ_append]), MS.tr.stable.trans R.stable, fun k hp hle => ?_⟩
-        have e1 := MS.tr.tight k hp hle
-        have := R.tight k (by omega) (by omega)
-        omega
-      · apply Rep_ref_list (by simpa using MS.lt)
-        rw [payloadOf_setPayload]; simp only [hl0, and_true, if_true]
-        exact All2.mono (fun s _ hs r => slot_write_rep _ hz r (ne_ref_of_pocc_zero hz (mem_of_mem_dropLast hs)))
-          (All2.dropLast a0)
-      · exact slot_write_rep _ hz rxy (ne_ref_of_pocc_zero hz (mem_of_getLast? hg))
+      exact ⟨Tr.refl (i.congr (fun k => by simp [occ_cons, occ_append])), rfl, r, rfl⟩
+    | list ts =>
+      simp only [Tree.keysT_list, Tree.kids_list] at hk a
+      have MS := makeMut_spec (h := h) (id := id) (F := F) (i.congr (fun k => by simp [occ_cons, occ_append]))
+      have a0 : All2 (Rep (makeMut h id).1) (payloadOf (makeMut h id).1 (makeMut h id).2) ts := by
+        rw [MS.pay]; exact All2.mono (fun _ _ _ r => r.ext MS.ext) a
+      have hk0 : keysOf (makeMut h id).1 (makeMut h id).2 = none := by rw [MS.keys]; exact hk
+      have i0 : Inv (makeMut h id).1 (.ref (makeMut h id).2 :: [] ++ F) := by simpa using MS.tr.inv
+      obtain ⟨hz, _, hl0⟩ := unique_facts i0 MS.rc1
+      cases hg : (payloadOf (makeMut h id).1 (makeMut h id).2).getLast? with
+      | none =>
+        have e : popLeaf.act h (.ref id) = ⟨(makeMut h id).1, .ref (makeMut h id).2, .null, false⟩ := by
+          simp only [popLeaf, popAct, hk, hg]
+        rw [e]
+        have hs : ts.getLast? = none := All2.getLast?_none a0 hg
+        simp only [popφ, Store.popAct, hs]
+        exact ⟨MS.tr.outs_congr (fun k => by simp [occ_cons]), trivial, Rep_ref_list MS.lt hk0 a0, trivial⟩
+      | some x =>
+        have e : popLeaf.act h (.ref id) = ⟨setPayload (makeMut h id).1 (makeMut h id).2
+            (payloadOf (makeMut h id).1 (makeMut h id).2).dropLast, .ref (makeMut h id).2, x, true⟩ := by
+          simp only [popLeaf, popAct, hk, hg]
+        rw [e]
+        obtain ⟨y, hy, rxy⟩ := All2.getLast? a0 hg
+        simp only [popφ, Store.popAct, hy]
+        have R := replace_payload (ins := []) (outs := [x]) (F := F)
+          (payloadOf (makeMut h id).1 (makeMut h id).2).dropLast i0 MS.rc1
+          (fun k => by have := occ_dropLast_getLast k _ x hg; simp at this ⊢; omega)
+        refine ⟨?_, trivial, ?_, ?_⟩
+        · refine ⟨R.inv.congr (fun k => by simp [occ_cons, occ_append]), MS.tr.stable.trans R.stable, fun k hp hle => ?_⟩
+          have e1 := MS.tr.tight k hp hle
+          have := R.tight k (by omega) (by omega)
+          omega
+        · apply Rep_ref_list (by simpa using MS.lt) (by rw [keysOf_setPayload]; exact hk0)
+          rw [payloadOf_setPayload]; simp only [hl0, and_true, if_true]
+          exact All2.mono (fun s _ hs r => slot_write_rep _ hz r (ne_ref_of_pocc_zero hz (mem_of_mem_dropLast hs)))
+            (All2.dropLast a0)
+        · exact slot_write_rep _ hz rxy (ne_ref_of_pocc_zero hz (mem_of_getLast? hg))
 
 theorem mem_of_mem_eraseIdx {α : Type} {l : List α} {a : α} {j : Nat} (h : a ∈ l.eraseIdx j) : a ∈ l :=
   List.mem_of_mem_eraseIdx h
 
-theorem removeLeaf_spec (ix : Int) : LeafSpec (removeLeaf ix) [] [] (removeφ ix) := by
+theorem removeLeaf_spec (ix : Int) : LeafSpec (removeLeaf ix).act [] [] (removeφ ix).act := by
   intro h c F t i r _
   cases c with
   | null =>
     have := Rep_null_inv r; subst this
-    exact ⟨Tr.refl (i.congr (fun k => by simp [removeLeaf, occ_cons, occ_append])), rfl, r, rfl⟩
+    exact ⟨Tr.refl (i.congr (fun k => by simp [removeLeaf, removeAct, occ_cons, occ_append])), rfl, r, rfl⟩
   | int n =>
     have := Rep_int_inv r; subst this
-    exact ⟨Tr.refl (i.congr (fun k => by simp [removeLeaf, occ_cons, occ_append])), rfl, r, rfl⟩
+    exact ⟨Tr.refl (i.congr (fun k => by simp [removeLeaf, removeAct, occ_cons, occ_append])), rfl, r, rfl⟩
   | ref id =>
-    obtain ⟨ts, rfl, hl, a⟩ := Rep_ref_inv r
-    have hlen : (payloadOf h id).length = ts.length := All2.length_eq a
-    cases hp : pyIdx ts.length ix with
-    | none =>
-      have e : removeLeaf ix h (.ref id) = ⟨h, .ref id, .null, false⟩ := by
-        simp only [removeLeaf, hlen, pyIndex_eq_pyIdx, hp]
-      rw [e]; simp only [removeφ, hp]
-      exact ⟨Tr.refl (i.congr (fun k => by simp [occ_cons])), trivial, r, trivial⟩
-    | some j =>
-      have MS := makeMut_spec (h := h) (id := id) (F := F) (i.congr (fun k => by simp [occ_cons, occ_append]))
-      have a0 : All2 (Rep (makeMut h id).1) (payloadOf (makeMut h id).1 (makeMut h id).2) ts := by
+    obtain ⟨hc, hl, hk, hw, a⟩ := Rep_ref_inv r
+    have MS := makeMut_spec (h := h) (id := id) (F := F) (i.congr (fun k => by simp [occ_cons, occ_append]))
+    have i0 : Inv (makeMut h id).1 (.ref (makeMut h id).2 :: [] ++ F) := by simpa using MS.tr.inv
+    obtain ⟨hz, _, hl0⟩ := unique_facts i0 MS.rc1
+    cases t with
+    | null => simp at hc
+    | int n => simp at hc
+    | list ts =>
+      simp only [Tree.keysT_list, Tree.kids_list] at hk a
+      have hlen : (payloadOf h id).length = ts.length := All2.length_eq a
+      cases hp : pyIdx ts.length ix with
+      | none =>
+        have e : (removeLeaf ix).act h (.ref id) = ⟨h, .ref id, .null, false⟩ := by
+          simp only [removeLeaf, removeAct, hk, hlen, pyIndex_eq_pyIdx, hp]
+        rw [e]; simp only [removeφ, Store.removeAct, hp]
+        exact ⟨Tr.refl (i.congr (fun k => by simp [occ_cons])), trivial, r, trivial⟩
+      | some j =>
+        have a0 : All2 (Rep (makeMut h id).1) (payloadOf (makeMut h id).1 (makeMut h id).2) ts := by
+          rw [MS.pay]; exact All2.mono (fun _ _ _ r => r.ext MS.ext) a
+        have hk0 : keysOf (makeMut h id).1 (makeMut h id).2 = none := by rw [MS.keys]; exact hk
+        have hj : j < (payloadOf (makeMut h id).1 (makeMut h id).2).length := by
+          rw [All2.length_eq a0]; exact pyIndex_lt (by rw [pyIndex_eq_pyIdx]; exact hp)
+        have e : (removeLeaf ix).act h (.ref id) = ⟨setPayload (makeMut h id).1 (makeMut h id).2
+            ((payloadOf (makeMut h id).1 (makeMut h id).2).eraseIdx j), .ref (makeMut h id).2,
+            (payloadOf (makeMut h id).1 (makeMut h id).2).getD j .null, true⟩ := by
+          simp only [removeLeaf, removeAct, hk, hlen, pyIndex_eq_pyIdx, hp]
+        rw [e]; simp only [removeφ, Store.removeAct, hp]
+        have R := replace_payload (ins := []) (outs := [(payloadOf (makeMut h id).1 (makeMut h id).2).getD j .null]) (F := F)
+          ((payloadOf (makeMut h id).1 (makeMut h id).2).eraseIdx j) i0 MS.rc1
+          (fun k => by have := occ_eraseIdx k _ j hj; simp at this ⊢; omega)
+        refine ⟨?_, trivial, ?_, ?_⟩
+        · refine ⟨R.inv.congr (fun k => by simp [occ_cons, occ_append]), MS.tr.stable.trans R.stable, fun k hp hle => ?_⟩
+          have e1 := MS.tr.tight k hp hle
+          have := R.tight k (by omega) (by omega)
+          omega
+        · apply Rep_ref_list (by simpa using MS.lt) (by rw [keysOf_setPayload]; exact hk0)
+          rw [payloadOf_setPayload]; simp only [hl0, and_true, if_true]
+          exact All2.mono (fun s _ hs r => slot_write_rep _ hz r (ne_ref_of_pocc_zero hz (mem_of_mem_eraseIdx hs)))
+            (All2.eraseIdx j a0)
+        · exact slot_write_rep _ hz (All2.getD j _ _ a0 hj) (ne_ref_of_pocc_zero hz (getD_mem _ hj))
+    | dict ks vs =>
+      simp only [Tree.keysT_dict, Tree.kids_dict] at hk a
+      have a0 : All2 (Rep (makeMut h id).1) (payloadOf (makeMut h id).1 (makeMut h id).2) vs := by
         rw [MS.pay]; exact All2.mono (fun _ _ _ r => r.ext MS.ext) a
-      have i0 : Inv (makeMut h id).1 (.ref (makeMut h id).2 :: [] ++ F) := by simpa using MS.tr.inv
-      obtain ⟨hz, _, hl0⟩ := unique_facts i0 MS.rc1
-      have hj : j < (payloadOf (makeMut h id).1 (makeMut h id).2).length := by
-        rw [All2.length_eq a0]; exact pyIndex_lt (by rw [pyIndex_eq_pyIdx]; exact hp)
-      have e : removeLeaf ix h (.ref id) = ⟨setPayload (makeMut h id).1 (makeMut h id).2
-          ((payloadOf (makeMut h id).1 (makeMut h id).2).eraseIdx j), .ref (makeMut h id).2,
-          (payloadOf (makeMut h id).1 (makeMut h id).2).getD j .null, true⟩ := by
-        simp only [removeLeaf, hlen, pyIndex_eq_pyIdx, hp]
-      rw [e]; simp only [removeφ, hp]
-      have R := replace_payload (ins := []) (outs := [(payloadOf (makeMut h id).1 (makeMut h id).2).getD j .null]) (F := F)
-        ((payloadOf (makeMut h id).1 (makeMut h id).2).eraseIdx j) i0 MS.rc1
-        (fun k => by have := occ_eraseIdx k _ j hj; simp at this ⊢; omega)
-      refine ⟨?_, trivial, ?_, ?_⟩
-      · refine ⟨R.inv.congr (fun k => by simp [occ_cons, occ_append]), MS.tr.stable.trans R.stable, fun k hp hle => ?_⟩
-        have e1 := MS.tr.tight k hp hle
-        have := R.tight k (by omega) (by omega)
-        omega
-      · apply Rep_ref_list (by simpa using MS.lt)
-        rw [payloadOf_setPayload]; simp only [hl0, and_true, if_true]
-        exact All2.mono (fun s _ hs r => slot_write_rep _ hz r (ne_ref_of_pocc_zero hz (mem_of_mem_eraseIdx hs)))
-          (All2.eraseIdx j a0)
-      · exact slot_write_rep _ hz (All2.getD j _ _ a0 hj) (ne_ref_of_pocc_zero hz (getD_mem _ hj))
+      have hk0 : keysOf (makeMut h id).1 (makeMut h id).2 = (Tree.dict ks vs).keysT := by
+        rw [MS.keys]; exact hk
+      have hlen0 : (payloadOf (makeMut h id).1 (makeMut h id).2).length = (Tree.dict ks vs).kids.length :=
+        All2.length_eq a0
+      have hslot := slotOf_eq_treeSlot hk0 hlen0 ix
+      simp only [treeSlot, Tree.keysT_dict, Tree.kids_dict] at hslot
+      cases hp : dictSlot ks vs.length ix with
+      | none =>
+        have e : (removeLeaf ix).act h (.ref id) = ⟨(makeMut h id).1, .ref (makeMut h id).2, .null, false⟩ := by
+          simp only [removeLeaf, removeAct, hk, hslot, hp]
+        rw [e]; simp only [removeφ, Store.removeAct, hp]
+        exact ⟨MS.tr.outs_congr (fun k => by simp [occ_cons]), trivial,
+          Rep_ref_dict MS.lt (by simpa using hk0) (by simpa [Tree.kids] using hw ks rfl) a0, trivial⟩
+      | some j =>
+        have hj : j < (payloadOf (makeMut h id).1 (makeMut h id).2).length :=
+          slotOf_lt (by rw [hslot]; exact hp)
+        have e : (removeLeaf ix).act h (.ref id) = ⟨setEntries (makeMut h id).1 (makeMut h id).2
+            ((payloadOf (makeMut h id).1 (makeMut h id).2).eraseIdx j) (ks.eraseIdx j), .ref (makeMut h id).2,
+            (payloadOf (makeMut h id).1 (makeMut h id).2).getD j .null, true⟩ := by
+          simp only [removeLeaf, removeAct, hk, hslot, hp]
+        rw [e]; simp only [removeφ, Store.removeAct, hp]
+        have R := replace_entries (ins := []) (outs := [(payloadOf (makeMut h id).1 (makeMut h id).2).getD j .null]) (F := F)
+          ((payloadOf (makeMut h id).1 (makeMut h id).2).eraseIdx j) (ks.eraseIdx j) i0 MS.rc1
+          (fun k => by have := occ_eraseIdx k _ j hj; simp at this ⊢; omega)
+        refine ⟨?_, trivial, ?_, ?_⟩
+        · refine ⟨R.inv.congr (fun k => by simp [occ_cons, occ_append]), MS.tr.stable.trans R.stable, fun k hp hle => ?_⟩
+          have e1 := MS.tr.tight k hp hle
+          have := R.tight k (by omega) (by omega)
+          omega
+        · have hwl : ks.length = vs.length := by simpa [Tree.kids] using hw ks rfl
+          apply Rep_ref_dict (h := setEntries _ _ _ _) (by simpa using MS.lt)
+            (by rw [keysOf_setEntries]; simp [hl0]) (by simp [List.length_eraseIdx, hwl])
+          rw [payloadOf_setEntries]; simp only [hl0, and_true, if_true]
+          exact All2.mono (fun s _ hs r => frame_rep _ hz r (ne_ref_of_pocc_zero hz (mem_of_mem_eraseIdx hs)))
+            (All2.eraseIdx j a0)
+        · exact frame_rep _ hz (All2.getD j _ _ a0 hj) (ne_ref_of_pocc_zero hz (getD_mem _ hj))
 
 end Noulith.RcHeap
